@@ -50,6 +50,8 @@ class Case:
         self.undo_mem = {}            # height -> block id: undo kept in memory, not yet UTXO-flushed
         self.undo_disk = {}           # height -> id of the block whose U row is on disk
         self.dh = {}                  # height -> daemon height reported while that block was indexed
+        self.truth = {}               # (txid, idx) -> (hashX, value) of that output (for the split lookup oracle)
+        self.pending2 = None          # a DB.lookup_utxos call suspended between its two jobs
 
     # -- plumbing
     def emit(self, line, expect, kind):
@@ -64,6 +66,7 @@ class Case:
             for t in b.txs:
                 for idx in range(len(t.outs)):
                     self.outpoints.append((t.txid, idx))
+                    self.truth[(t.txid, idx)] = (hashx_of(t.outs[idx][1]), t.outs[idx][0])
 
     def dumps(self):
         self.emit('DUMP', self.real.dump(), 'dump')
@@ -146,6 +149,62 @@ class Case:
             a = rng.randrange(0, len(self.chain) + 1)
             c = rng.randrange(0, 5)
             self.emit(f'Q_HEADERS {a} {c}', self.real.q_headers(a, c), 'q')
+
+    # -- DB.lookup_utxos suspended between its two run_in_thread jobs (F22)
+    def lookup2_begin(self, txid, idx):
+        """Job 1 (`lookup_hashXs`) of the real coroutine now; the call stays suspended at job 2."""
+        dbmod = self.real.dbmod
+
+        class Suspend:
+            def __init__(self, func, args):
+                self.func, self.args = func, args
+
+            def __await__(self):
+                return (yield self)
+
+        async def suspending(func, *args):
+            return await Suspend(func, args)
+        saved = dbmod.run_in_thread
+        dbmod.run_in_thread = suspending
+        try:
+            coro = self.real.db.lookup_utxos([(txid, idx)])
+            sus = coro.send(None)
+            pairs = sus.func(*sus.args)
+            sus = coro.send(pairs)
+        finally:
+            dbmod.run_in_thread = saved
+        self.pending2 = (coro, sus, txid, idx, pairs[0])
+        hx, suffix = pairs[0]
+        r = 'none' if not hx else f'{be(hx)}:{int.from_bytes(suffix[-5:], "little")}'
+        self.emit(f'Q_LOOKUP2A {be(txid)} {idx}', r, 'q')
+
+    def lookup2_end(self):
+        """Job 2 (`lookup_utxos`) now, whatever was done to the index since job 1.  Direct oracle
+        (EnvSound's clause, judged without the model): the answer is None or the (hashX, value) of
+        that very output."""
+        coro, sus, txid, idx, handed = self.pending2
+        self.pending2 = None
+        if handed[0] and self.real.db.utxo_db.get(b'u' + handed[0] + handed[1]) is not None \
+                and self.real.db.fs_tx_hash(int.from_bytes(handed[1][-5:], 'little'))[0] != txid:
+            self.res.bump('split_lookup_job2_saw_row_of_reused_tx_number')
+        out = sus.func(*sus.args)
+        try:
+            coro.send(out)
+            raise RuntimeError('lookup_utxos did not return after its second job')
+        except StopIteration as e:
+            got, = e.value
+        self.emit('Q_LOOKUP2B', 'none' if got is None else f'{be(got[0])}:{got[1]}', 'q')
+        if got is not None:
+            self.res.bump('split_lookup_answers')
+            if self.truth.get((txid, idx)) != (got[0], got[1]):
+                t = self.truth.get((txid, idx))
+                self.direct_fail.append({
+                    'tags': ['lookup_split', 'F22'],
+                    'clause': 'C09: lookup_utxos answered a pair that is not the (hashX, value) of that output',
+                    'detail': f'prevout {be(txid)}:{idx} is worth '
+                              f'{"nothing (no such output)" if t is None else f"{be(t[0])}:{t[1]}"}; lookup_utxos, with '
+                              f'the operations of the script between its two run_in_thread jobs (after Q_LOOKUP2A, '
+                              f'before Q_LOOKUP2B), answered {be(got[0])}:{got[1]}'})
 
     def spec_check(self):
         """Direct oracle at a fully flushed state: real code vs Lean spec of the indexed chain."""
@@ -303,7 +362,8 @@ def compare(res, c, label):
     nontrivial = any(k in ('flush', 'backup') for k in c.kinds) and any(k == 'spec' for k in c.kinds)
     res.note_case(canon + str(len(c.lines)), nontrivial)
     res.bump('protocol_lines', len(c.lines))
-    ops_script = [l for l, k in zip(c.lines, c.kinds) if k not in ('dump', 'dumpmem', 'q', 'spec')]
+    ops_script = [l for l, k in zip(c.lines, c.kinds)
+                  if k not in ('dump', 'dumpmem', 'q', 'spec') or l.startswith('Q_LOOKUP2')]
     def tags_at(i):
         # what had happened in the case when line i was produced: lets each property claim only the
         # failures (and correspondence breaks) in the part of the code its theorems are about
@@ -317,6 +377,8 @@ def compare(res, c, label):
                'S_TXHASHES': 'files', 'S_HEADERS': 'files'}.get(cmd, 'op_' + c.kinds[i]))
         if cmd in ('S_LOOKUP', 'Q_LOOKUP'):
             t.add('lookup')          # DB.lookup_utxos: what the mempool resolves prevouts with (C08)
+        if cmd in ('Q_LOOKUP2A', 'Q_LOOKUP2B'):
+            t.add('lookup_split')    # ... with index operations between its two jobs (C09, F22)
         return sorted(t)
 
     def case_for(i):
@@ -340,6 +402,83 @@ def compare(res, c, label):
     return bad is None and not bad_spec and not c.direct_fail
 
 
+SPLIT_SCENARIOS = ['none', 'flush', 'spend', 'reorg_same', 'reorg_same_noflush', 'backup_only',
+                   'reorg_other_script', 'reorg_other_idx', 'reorg_same_value', 'reorg_and_back']
+
+
+def split_case(res, rng, scen):
+    """One `DB.lookup_utxos` call for an outpoint of the tip block A, with real index operations
+    between its two run_in_thread jobs.  The reorg scenarios replace A by a block B of the same
+    shape, so that B's transaction gets the tx number of A's: `reorg_same` makes it pay the same
+    script at the same output index with another value (the row job 2 reads then belongs to the
+    OTHER transaction: F22)."""
+    GEN = (chaingen.ZERO, chaingen.MINUS_1)
+    c = Case(res, rng, 1000, rng.choice([2, 3, 200]), None)
+    try:
+        c.open()
+        tip = None
+        for n in range(rng.randrange(1, 3)):
+            tip = c.gen.new_block(tip, max_txs=rng.choice([0, 2]))
+            c.advance(tip, n)
+        h = len(c.chain)
+        scripts = NORMAL_SCRIPTS[:6]
+        S = rng.choice(scripts)
+        pos = rng.choice([0, 0, 1])
+        v1 = rng.randrange(1, 100_000)
+        v2 = v1 if scen == 'reorg_same_value' else v1 + rng.randrange(1, 1000)
+        filler = lambda: [(rng.randrange(1, 1000), rng.choice(scripts)) for _ in range(pos)]
+        ta = chaingen.GTx([GEN], filler() + [(v1, S)], nonce=rng.getrandbits(64))
+        outs_b = filler() + [(v2, S)]
+        if scen == 'reorg_other_script':
+            outs_b[pos] = (v2, rng.choice([x for x in scripts if x != S]))
+        if scen == 'reorg_other_idx':
+            outs_b.insert(pos, (rng.randrange(1, 1000), rng.choice([x for x in scripts if x != S])))
+        tb = chaingen.GTx([GEN], outs_b, nonce=rng.getrandbits(64))
+        A = c.gen.block_with(tip, [ta])
+        c.advance(A, h)
+        c.flush(True)
+        if rng.random() < 0.8:
+            c.lookup2_begin(ta.txid, pos)
+        else:
+            c.lookup2_begin(*rng.choice(c.outpoints))
+        if scen == 'flush':
+            c.advance(c.gen.new_block(A, max_txs=2), h + 1)
+            c.flush(True)
+        elif scen == 'spend':
+            c.advance(c.gen.block_with(A, [chaingen.GTx([(ta.txid, pos)], [(v1, rng.choice(scripts))],
+                                                        nonce=rng.getrandbits(64))]), h + 1)
+            c.flush(True)
+        elif scen != 'none':
+            c.backup()
+            if scen != 'backup_only':
+                B = c.gen.block_with(tip, [tb])
+                c.advance(B, h)
+                if scen != 'reorg_same_noflush':
+                    c.flush(True)
+                if scen == 'reorg_and_back':
+                    c.backup()
+                    c.advance(A, h)
+                    c.flush(True)
+        c.lookup2_end()
+        if c.flush(True) == 'ok':
+            c.spec_check()
+    finally:
+        c.finish()
+    return c
+
+
+def split_lookup_probe(res, tier, seed):
+    """DB.lookup_utxos is two thread jobs with a suspension point in between; the block processor may
+    do anything there.  Directed cases (own RNG streams: the generated cases of `run` are unchanged)."""
+    for i in range(20 if tier == 'quick' else 200):
+        if common.out_of_time():
+            break
+        scen = SPLIT_SCENARIOS[i % len(SPLIT_SCENARIOS)]
+        c = split_case(res, rng_for(seed, 'index-split', i), scen)
+        res.bump('split_lookup_' + scen)
+        compare(res, c, f'split lookup {i}: {scen} (seed {seed})')
+
+
 def run(tier, seed):
     res = SuiteResult('index')
     res.rule = ('case = generated block tree (same-block spends, colliding 4-byte txid prefixes, unspendable '
@@ -350,6 +489,7 @@ def run(tier, seed):
                 'observable is compared with the Lean specification of the indexed chain; non-trivial = the '
                 'case contains a flush or back-out and at least one specification checkpoint')
     tall_chain_probe(res, seed)
+    split_lookup_probe(res, tier, seed)
     groups = collision_groups(seed, tier)
     n_cases = 60 if tier == 'quick' else 1500
     for i in range(n_cases):
@@ -368,7 +508,8 @@ def run(tier, seed):
             break
     need = ['history_only_flushes', 'full_flushes', 'reorgs', 'restarts', 'gen_same_block_spends',
             'gen_colliding_prefix_txs_placed', 'gen_op_return_before_activation',
-            'gen_op_return_at_or_after_activation', 'db_spends_with_2plus_candidates']
+            'gen_op_return_at_or_after_activation', 'db_spends_with_2plus_candidates',
+            'split_lookup_job2_saw_row_of_reused_tx_number', 'split_lookup_answers']
     for k in need:
         if res.stats.get(k, 0) == 0:
             res.harness_errors.append(f'generator never reached {k}')
@@ -376,6 +517,12 @@ def run(tier, seed):
 
 
 def replay(case):
+    import re
+    m = re.match(r'split lookup (\d+): (\w+) \(seed (\d+)\)', case.get('where', ''))
+    if m:
+        # a case of the split-lookup probe: re-run it on the real code and judge it directly
+        c = split_case(SuiteResult('index'), rng_for(int(m.group(3)), 'index-split', int(m.group(1))), m.group(2))
+        return [f"{d['clause']}: {d['detail']}" for d in c.direct_fail]
     return ['replay of index cases: re-run the check with the same VERIF_SEED; the failing case is '
             + case.get('where', '?')]
 
